@@ -229,7 +229,11 @@ namespace fastscapelib
 
         neighbors_indices_type& get_storage(const std::size_t& /*idx*/)
         {
-            return m_node_neighbors;
+            // temporary storage filled at each look-up: use one buffer per
+            // thread so that grid neighbors may be queried concurrently (e.g.,
+            // by flow routers running on multiple threads)
+            static thread_local neighbors_indices_type node_neighbors;
+            return node_neighbors;
         }
 
         void store(const std::size_t& /*idx*/, const neighbors_indices_type neighbors_indices)
